@@ -2,7 +2,7 @@
 EXTENDS ObjModel, Json, IOUtils, SequencesExt
 
 VARIABLE c_cell          \* Part B: the call-form cell being enumerated / judged (Part A keeps it constant)
-NoCell == [form |-> "", kind |-> "", ret |-> ""]
+NoCell == [form |-> "", kind |-> "", ret |-> "", via |-> ""]
 
 EnvOr(n, d) == IF n \in DOMAIN IOEnv THEN IOEnv[n] ELSE d
 NatOf == [t \in {ToString(j) : j \in 0..64} |-> CHOOSE j \in 0..64 : ToString(j) = t]
@@ -36,13 +36,14 @@ SimNext == /\ UNCHANGED c_cell
 Forms == {"method", "plain", "call", "apply", "bind", "new", "arrow"}
 Kinds == {"decl", "expr", "named", "arrow", "method", "propfn", "getter", "bound", "native"}
 Rets  == {"none", "num", "str", "null", "undef", "bool", "obj", "arr", "fn"}
-Cells == {[form |-> f, kind |-> k, ret |-> ""] : f \in Forms, k \in Kinds}
-         \cup {[form |-> "newret", kind |-> c, ret |-> r] : r \in Rets, c \in {"decl", "expr", "bound"}}
-         \cup {[form |-> "chain", kind |-> c, ret |-> ""] : c \in {"assign", "setproto", "literal"}}
+TableCells == {[form |-> f, kind |-> k, ret |-> "", via |-> ""] : f \in Forms, k \in Kinds}
+         \cup {[form |-> "newret", kind |-> c, ret |-> r, via |-> ""] : r \in Rets, c \in {"decl", "expr", "bound"}}
+         \cup {[form |-> "chain", kind |-> c, ret |-> "", via |-> ""] : c \in {"assign", "setproto", "literal"}}
 SeqSetC(sq) == {sq[j] : j \in 1..Len(sq)}
 CallDevs == {"Dev_ArrowThis", "Dev_ArrowArguments", "Dev_NonConstructorNew", "Dev_NewBound", "Dev_BindOfBound",
              "Dev_FnNameInference", "Dev_BoundName", "Dev_NativeFn", "Dev_NewReturnFn",
-             "Dev_FnProtoAssign", "Dev_FnProtoNoObjectProto"}
+             "Dev_FnProtoAssign", "Dev_FnProtoNoObjectProto",
+             "Dev_NativeThis", "Dev_ToStringFnClass", "Dev_FnNotObject", "Dev_PrimitiveNoProto", "Dev_ArrayAccessors"}
 
 ThisOf(form) == CASE form = "method" -> "@recv" [] form = "plain" -> "u" [] form \in {"call", "apply", "bind"} -> "@x1"
                   [] form = "new" -> "@?" [] form = "arrow" -> "@recv"
@@ -129,15 +130,135 @@ AsIsChain(how, dv) ==
                ("r2" :> D("false", "Dev_FnProtoAssign")) @@ ("r6" :> D("false", "Dev_FnProtoAssign")), RefChain(how))
   IN Ov("Dev_FnProtoNoObjectProto" \in dv, "r7" :> D("'!TypeError", "Dev_FnProtoNoObjectProto"), b1)
 
-CellRef(c) == IF c.form = "chain" THEN RefChain(c.kind) ELSE IF c.form = "newret" THEN RefRet(c.ret, c.kind) ELSE RefCell(c.form, c.kind)
-CellAsIs(c, dv) == IF c.form = "chain" THEN AsIsChain(c.kind, dv) ELSE IF c.form = "newret" THEN AsIsRet(c.ret, c.kind, dv)
+\* ==============================================================================================
+\* Part C: the KIND of the this-value x every call form that takes an explicit this x function kind.
+\* The table of Part B hands objects over as this; here the value is an object, an array, a function, a truthy
+\* primitive, 0, -0, '', false, NaN, null, undefined, or is not written at all ("absent").  Strict-mode semantics: no
+\* boxing, the function sees the very value (typeof this tells a wrapper object from the primitive).
+\* Driver (checks/c08_driver.py tv_driver): the probe stores [this, arguments.length, arguments[0..1], a, b, typeof this];
+\*   bound = fd.bind(bt, 5, 6);  the arrow is created inside host.mk(7, 8);  native = Object.prototype.toString (answers
+\*   with the class of its this);  call forms (TV = the value):
+\*   call f.call(TV,1,2) | apply f.apply(TV,[1,2]) | bind f.bind(TV)(1,2) | bindcall f.bind(TV).call(x2,1,2) |
+\*   bindmethod recv.g = f.bind(TV), recv.g(1,2) | callcall f.call.call(f,TV,1,2) | callapply f.call.apply(f,[TV,1,2]) |
+\*   map/filter/forEach/find/findIndex/some/every [4].m(f,TV) | reduce/reduceRight/sort [4,5].m(f) (no thisArg position) |
+\*   primrecv Object.prototype.pm = f, TV.pm(1,2) | primget  accessor pg on Object.prototype with getter f, TV.pg
+TVias  == {"call", "apply", "bind", "bindcall", "bindmethod", "callcall", "callapply", "map", "filter", "forEach", "find",
+           "findIndex", "some", "every", "reduce", "reduceRight", "sort", "primrecv", "primget"}
+TKinds == {"decl", "expr", "method", "getter", "arrow", "bound", "native"}
+TVals  == {"obj", "arr", "fn", "num", "str", "true", "zero", "negzero", "empty", "false", "nan", "null", "undef", "absent"}
+TPrims == {"num", "str", "true", "zero", "negzero", "empty", "false", "nan"}
+ArrVias == {"map", "filter", "forEach", "find", "findIndex", "some", "every"}
+NoThisVias == {"reduce", "reduceRight", "sort"}          \* callbacks of methods without a thisArg position
+RecvVias == {"primrecv", "primget"}                       \* the this-value is the receiver of a property access
+ResultVias == {"call", "apply", "bind", "bindcall", "bindmethod", "callcall", "callapply", "map", "primrecv", "primget"}
+TApplicable(via, tk) == IF via \in NoThisVias THEN tk = "absent" ELSE IF via \in RecvVias THEN tk # "absent" ELSE TRUE
+TCellsAll == {[form |-> "tv", kind |-> k, ret |-> t, via |-> v] : k \in TKinds, t \in TVals, v \in TVias}
+Tier == EnvOr("TIER", "thorough")
+\* quick: every call form x every this-value kind for one ordinary function and for the kinds with a rule of their own
+\* (arrow, bound, native); the remaining ordinary kinds with a representative of each class of this-value
+TCells == {c \in TCellsAll : /\ TApplicable(c.via, c.ret)
+                             /\ (Tier # "quick" \/ c.kind \in {"decl", "arrow", "bound", "native"}
+                                 \/ c.ret \in {"obj", "zero", "empty", "null", "absent"})}
+Cells == TableCells \cup TCells
+
+TVal(tk) == CASE tk = "obj" -> "@x1" [] tk = "arr" -> "@ra" [] tk = "fn" -> "@rf" [] tk = "num" -> "n3" [] tk = "str" -> "'a"
+              [] tk = "true" -> "true" [] tk = "zero" -> "n0" [] tk = "negzero" -> "n-0" [] tk = "empty" -> "'"
+              [] tk = "false" -> "false" [] tk = "nan" -> "nnan" [] tk = "null" -> "null" [] tk \in {"undef", "absent"} -> "u"
+TTypeOf(tk) == CASE tk \in {"obj", "arr", "null"} -> "'object" [] tk = "fn" -> "'function"
+                 [] tk \in {"num", "zero", "negzero", "nan"} -> "'number" [] tk \in {"str", "empty"} -> "'string"
+                 [] tk \in {"true", "false"} -> "'boolean" [] tk \in {"undef", "absent"} -> "'undefined"
+TClassOf(tk) == CASE tk = "obj" -> "'[object Object]" [] tk = "arr" -> "'[object Array]" [] tk = "fn" -> "'[object Function]"
+                  [] tk \in {"num", "zero", "negzero", "nan"} -> "'[object Number]" [] tk \in {"str", "empty"} -> "'[object String]"
+                  [] tk \in {"true", "false"} -> "'[object Boolean]" [] tk = "null" -> "'[object Null]"
+                  [] tk \in {"undef", "absent"} -> "'[object Undefined]"
+TGiven(via, tk) == IF via \in NoThisVias THEN "absent" ELSE tk     \* what the call form hands over as this
+TReached(via, tk) == ~(via \in RecvVias /\ tk \in {"null", "undef"})   \* a property access on null / undefined throws
+NTok(n) == "n" \o ToString(n)
+\* the arguments the call form passes: count, first, second
+TArgs(via, tk) ==
+  CASE via \in {"call", "apply", "callcall", "callapply"} ->
+         IF tk = "absent" THEN [n |-> 0, x |-> "u", y |-> "u"] ELSE [n |-> 2, x |-> "n1", y |-> "n2"]
+    [] via \in {"bind", "bindcall", "bindmethod", "primrecv"} -> [n |-> 2, x |-> "n1", y |-> "n2"]
+    [] via = "primget" -> [n |-> 0, x |-> "u", y |-> "u"]
+    [] via \in ArrVias -> [n |-> 3, x |-> "n4", y |-> "n0"]                      \* (element, index, array)
+    [] via = "reduce" -> [n |-> 4, x |-> "n4", y |-> "n5"]                      \* (accumulator, element, index, array)
+    [] via = "reduceRight" -> [n |-> 4, x |-> "n5", y |-> "n4"]
+    [] via = "sort" -> [n |-> 2, x |-> "?", y |-> "?"]                          \* comparator: the order of the pair is not specified
+TNone(out) == ("out" :> out) @@ ("ran" :> P("false")) @@ ("this" :> P("u")) @@ ("ttype" :> P("u"))
+              @@ Args("u", "u", "u", "u", "u") @@ ("cls" :> P("u"))
+RefTV(via, kind, tk) ==
+  LET g == TGiven(via, tk)
+      ar == TArgs(via, tk)
+      th == CASE kind = "arrow" -> <<"@host", "'object">>                        \* lexical this
+              [] kind = "bound" -> <<"@bt", "'object">>                          \* the bound this wins
+              [] OTHER -> <<TVal(g), TTypeOf(g)>>                               \* the very value, not boxed
+      ag == CASE kind = "arrow" -> Args("n2", "n7", "n8", ar.x, ar.y)            \* lexical arguments
+              [] kind = "bound" -> Args(NTok(ar.n + 2), "n5", "n6", "n5", "n6")
+              [] kind = "getter" -> Args(NTok(ar.n), ar.x, ar.y, "u", "u")
+              [] OTHER -> Args(NTok(ar.n), ar.x, ar.y, ar.x, ar.y)
+  IN IF ~TReached(via, tk) THEN TNone(P("!TypeError"))
+     ELSE IF kind = "native" THEN ("cls" :> P(TClassOf(g))) @@ TNone(P("ok"))
+     ELSE ("out" :> P("ok")) @@ ("ran" :> P("true")) @@ ("this" :> P(th[1])) @@ ("ttype" :> P(th[2])) @@ ag @@ ("cls" :> P("-"))
+AsIsTV(via, kind, tk, dv) ==
+  LET g == TGiven(via, tk)
+      ar == TArgs(via, tk)
+      reached == TReached(via, tk)
+      b0 == RefTV(via, kind, tk)
+      \* arrows read this / arguments from their own frame: they see what an ordinary function would see
+      b1 == Ov("Dev_ArrowArguments" \in dv /\ kind = "arrow" /\ reached,
+               ArgsD(NTok(ar.n), ar.x, ar.y, ar.x, ar.y, "Dev_ArrowArguments"), b0)
+      b2 == Ov("Dev_ArrowThis" \in dv /\ kind = "arrow" /\ reached,
+               ("this" :> D(TVal(g), "Dev_ArrowThis")) @@ ("ttype" :> D(TTypeOf(g), "Dev_ArrowThis")), b1)
+      \* Object.prototype.toString classifies a script function as a plain object
+      b3 == Ov("Dev_ToStringFnClass" \in dv /\ kind = "native" /\ g = "fn" /\ reached,
+               "cls" :> D("'[object Object]", "Dev_ToStringFnClass"), b2)
+      \* a native method invoked as an array callback takes its FIRST ARGUMENT (the element 4) as this; invoked as an
+      \* accessor it is called without this and a Python TypeError escapes
+      b4 == Ov("Dev_NativeThis" \in dv /\ kind = "native" /\ via \in ArrVias, "cls" :> D("'[object Number]", "Dev_NativeThis"), b3)
+      b5 == Ov("Dev_NativeThis" \in dv /\ kind = "native" /\ via = "primget" /\ reached, "out" :> D("host:TypeError", "Dev_NativeThis"), b4)
+      \* receivers that do not reach Object.prototype: the method is not found (TypeError), the accessor does not run
+      lost(d) == IF via = "primrecv" THEN "out" :> D("!TypeError", d)
+                 ELSE ("out" :> D("ok", d)) @@ ("ran" :> D("false", d)) @@ ("this" :> D("u", d)) @@ ("ttype" :> D("u", d))
+                      @@ ArgsD("u", "u", "u", "u", "u", d) @@ ("cls" :> D("u", d))
+      b6 == Ov("Dev_FnNotObject" \in dv /\ via \in RecvVias /\ tk = "fn", lost("Dev_FnNotObject"), b5)
+      b7 == Ov("Dev_PrimitiveNoProto" \in dv /\ via \in RecvVias /\ tk \in TPrims, lost("Dev_PrimitiveNoProto"), b6)
+      b8 == Ov("Dev_ArrayAccessors" \in dv /\ via = "primget" /\ tk = "arr", lost("Dev_ArrayAccessors"), b7)
+  IN b8
+TVAspects(via, kind) ==
+  IF kind = "native" THEN (IF via \in ResultVias THEN <<"out", "cls">> ELSE <<"out">>)
+  ELSE IF via = "sort" THEN <<"out", "ran", "this", "ttype", "alen">>
+  ELSE <<"out", "ran", "this", "ttype", "alen", "a0", "a1", "pa", "pb">>
+\* laws of the this-value table (model-checked over all its cells)
+TVLaws(c) ==
+  LET r(v) == RefTV(v, c.kind, c.ret)
+      me == r(c.via)
+      ordinary == c.kind \in {"decl", "expr", "method", "getter"}
+      same(v1, v2) == (TApplicable(v1, c.ret) /\ TApplicable(v2, c.ret)) => r(v1) = r(v2)
+  IN /\ same("call", "apply") /\ same("call", "callcall") /\ same("call", "callapply")     \* one protocol, four spellings
+     /\ same("bind", "bindcall") /\ same("bind", "bindmethod")                            \* a bound this is final
+     /\ \A v1, v2 \in ArrVias : same(v1, v2)
+     \* whatever the call form, the function sees the value that was given (ordinary functions) ...
+     /\ (ordinary /\ TReached(c.via, c.ret) =>
+           /\ me["this"] = P(TVal(TGiven(c.via, c.ret))) /\ me["ttype"] = P(TTypeOf(TGiven(c.via, c.ret)))
+           /\ (c.ret \in TPrims /\ c.via \notin NoThisVias => me["ttype"] # P("'object")))   \* ... and never a wrapper object
+     /\ (c.kind = "arrow" /\ TReached(c.via, c.ret) => me["this"] = P("@host"))             \* lexical
+     /\ (c.kind = "bound" /\ TReached(c.via, c.ret) => me["this"] = P("@bt"))
+     \* an explicit undefined and a this that is not written are the same thing
+     /\ (c.ret = "undef" /\ TApplicable(c.via, "absent") =>
+           \A a \in {"this", "ttype", "cls"} : me[a] = RefTV(c.via, c.kind, "absent")[a])
+     /\ (c.via \in NoThisVias /\ c.kind \notin {"arrow", "bound", "native"} => me["this"] = P("u"))
+     /\ (c.kind = "native" /\ TReached(c.via, c.ret) => me["cls"] = P(TClassOf(TGiven(c.via, c.ret))))
+
+CellRef(c) == IF c.form = "tv" THEN RefTV(c.via, c.kind, c.ret) ELSE IF c.form = "chain" THEN RefChain(c.kind) ELSE IF c.form = "newret" THEN RefRet(c.ret, c.kind) ELSE RefCell(c.form, c.kind)
+CellAsIs(c, dv) == IF c.form = "tv" THEN AsIsTV(c.via, c.kind, c.ret, dv) ELSE IF c.form = "chain" THEN AsIsChain(c.kind, dv) ELSE IF c.form = "newret" THEN AsIsRet(c.ret, c.kind, dv)
                    ELSE AsIsCell(c.form, c.kind, dv)
-CellAspects(c) == IF c.form = "chain" THEN ChainAspects ELSE IF c.form = "newret" THEN RetAspects ELSE ProductAspects(c.kind)
+CellAspects(c) == IF c.form = "tv" THEN TVAspects(c.via, c.kind) ELSE IF c.form = "chain" THEN ChainAspects ELSE IF c.form = "newret" THEN RetAspects ELSE ProductAspects(c.kind)
 
 \* laws of the table itself (model-checked over all cells)
 CallLaws(c) ==
   /\ CellAsIs(c, {}) = CellRef(c)                                                         \* no deviation = reference
   /\ \A a \in SeqSetC(CellAspects(c)) : a \in DOMAIN CellRef(c) /\ a \in DOMAIN CellAsIs(c, CallDevs)
+  /\ (c.form = "tv" => TVLaws(c))
   /\ (c.form \in Forms =>
         LET r == RefCell(c.form, c.kind) IN
         /\ RefCell("call", c.kind) = RefCell("apply", c.kind)                             \* call and apply agree
